@@ -436,7 +436,7 @@ impl<'a, 'b> Gen<'a, 'b> {
             return Expr::Lit { s: String::new(), insensitive: false };
         }
         let insensitive = self.src.chance(self.prof.p_insensitive);
-        let len = 1 + self.src.weighted(&[12, 6, 2, 1]);
+        let len = 1 + self.src.weighted(&[24, 12, 4, 2, 1, 0, 1, 0, 0, 1]);
         let mut s = String::new();
         for _ in 0..len {
             if insensitive {
